@@ -892,6 +892,142 @@ theorem claim_eq_sum_of_deltas (P : Params) (m : Nat) (ops : List Op) (c : Claim
     (c.raw, c.qa) = sumDeltas P m init ops (0, 0) :=
   claim_eq_sum_of_deltas_gen P m ops init (0, 0) (by intro c h; simp [init] at h) c hc
 
+/-! ### `miner_count` equals the number of claims as long as no miner fails twice in one tick -/
+
+/-- under the invariant, `delete_claim` of a miner with a claim is: subtract the claim, erase -/
+theorem deleteClaimD_present (P : Params) (s : State) (m : Nat) (c : Claim) (h : Inv P s)
+    (hl : alookup m s.claims = some c) :
+    deleteClaimD P s m =
+      ({ addPost P s m c (-c.raw) (-c.qa) with
+          claims := aerase m (addPost P s m c (-c.raw) (-c.qa)).claims }, none) := by
+  unfold deleteClaimD
+  simp only [hl]
+  rw [addToClaimD_eq P s m (-c.raw) (-c.qa) h]
+  simp only [hl]
+  have n : ¬ (c.raw + -c.raw < 0 ∨ c.qa + -c.qa < 0) := by omega
+  simp only [n, if_false]
+  have hl2 : alookup m (addPost P s m c (-c.raw) (-c.qa)).claims
+      = some { raw := c.raw + -c.raw, qa := c.qa + -c.qa } := by
+    simp [addPost]
+  simp only [hl2]
+
+/-- the claims are in step with `miner_count` -/
+def CountExact (s : State) : Prop := s.minerCount = s.claims.length
+
+theorem cronDeleteOne_present (P : Params) (s : State) (m : Nat) (c : Claim) (h : Inv P s)
+    (hl : alookup m s.claims = some c) (hc : CountExact s) :
+    CountExact (cronDeleteOne P s m) ∧
+    (∀ k, k ≠ m → alookup k (cronDeleteOne P s m).claims = alookup k s.claims) := by
+  unfold cronDeleteOne
+  rw [deleteClaimD_present P s m c h hl]
+  simp only
+  have e3 := (addToClaimStats_claims P s c (-c.raw) (-c.qa)).2.2.1
+  have hi := addPost_inv P s m c (-c.raw) (-c.qa) h hl (by omega) (by omega)
+  have hl2 : alookup m (addPost P s m c (-c.raw) (-c.qa)).claims
+      = some { raw := c.raw + -c.raw, qa := c.qa + -c.qa } := by
+    simp [addPost]
+  have hlen := length_aerase m _ _ hi.nodup hl2
+  have hlen2 : (addPost P s m c (-c.raw) (-c.qa)).claims.length = s.claims.length := by
+    simp [addPost, length_aset_some _ _ _ _ hl]
+  constructor
+  · unfold CountExact at hc ⊢
+    simp only
+    have : (addPost P s m c (-c.raw) (-c.qa)).minerCount = s.minerCount := e3
+    omega
+  · intro k hk
+    show alookup k (aerase m (addPost P s m c (-c.raw) (-c.qa)).claims) = alookup k s.claims
+    rw [alookup_aerase_other _ _ _ hk]
+    simp only [addPost]
+    exact alookup_aset_other _ _ _ _ hk
+
+theorem cronDelete_fold_exact (P : Params) (hP : 0 < P.minPower) :
+    ∀ (l : List Nat) (s : State), Inv P s → CountExact s → l.Nodup →
+      (∀ m ∈ l, (alookup m s.claims).isSome) → CountExact (l.foldl (cronDeleteOne P) s) := by
+  intro l
+  induction l with
+  | nil => intro s _ hc _ _; exact hc
+  | cons m t ih =>
+    intro s h hc hn hp
+    simp only [List.foldl]
+    have hm := hp m List.mem_cons_self
+    cases hl : alookup m s.claims with
+    | none => simp [hl] at hm
+    | some c =>
+      obtain ⟨e1, e2⟩ := cronDeleteOne_present P s m c h hl hc
+      have hn' := List.nodup_cons.mp hn
+      apply ih _ (cronDeleteOne_inv P s m hP h) e1 hn'.2
+      intro k hk
+      have hkm : k ≠ m := fun e => hn'.1 (e ▸ hk)
+      rw [e2 k hkm]
+      exact hp k (List.mem_cons_of_mem _ hk)
+
+/-- no cron tick of the run reports the same miner twice -/
+def NoDupFails : List Op → Prop
+  | [] => True
+  | .cronDelete l :: rest => l.Nodup ∧ NoDupFails rest
+  | _ :: rest => NoDupFails rest
+
+/-- `miner_count` is exactly the number of claims in every state reached by a run in which no
+    miner fails two cron events in the same tick (otherwise see `minerCount_drift`). -/
+theorem minerCount_eq_claims (P : Params) (hP : 0 < P.minPower) :
+    ∀ (ops : List Op) (s : State), Inv P s → CountExact s → NoDupFails ops →
+      CountExact (run P s ops) := by
+  intro ops
+  induction ops with
+  | nil => intro s _ hc _; exact hc
+  | cons op rest ih =>
+    intro s h hc hn
+    have hi := (inv_step P hP s op h).1
+    cases op with
+    | create gap execOk =>
+      simp only [NoDupFails] at hn
+      apply ih _ hi _ hn
+      cases execOk with
+      | false => simpa [step] using hc
+      | true =>
+        have hfresh : alookup (s.nextId + gap) s.claims = none := by
+          apply alookup_none_of_fresh
+          intro x hx
+          have := h.fresh x hx
+          omega
+        unfold CountExact at hc ⊢
+        simp [step, createMiner, setClaim, length_aset_none _ _ _ hfresh]
+        omega
+    | update m isMiner dr dq =>
+      simp only [NoDupFails] at hn
+      apply ih _ hi _ hn
+      simp only [step]
+      cases hu : updateClaimedPower P s m isMiner dr dq with
+      | error e => simpa using hc
+      | ok s' =>
+        simp only
+        unfold updateClaimedPower at hu
+        cases isMiner with
+        | false => simp at hu
+        | true =>
+          simp at hu
+          obtain ⟨old, hl, _, _, rfl⟩ := addToClaim_ok' P s s' m dr dq hu
+          have e3 := (addToClaimStats_claims P s old dr dq).2.2.1
+          unfold CountExact at hc ⊢
+          simp only [addPost, length_aset_some _ _ _ _ hl]
+          rw [e3]; exact hc
+    | cronDelete failed =>
+      simp only [NoDupFails] at hn
+      apply ih _ hi _ hn.2
+      simp only [step, cronDelete]
+      apply cronDelete_fold_exact P hP _ s h hc
+      · exact hn.1.sublist List.filter_sublist
+      · intro m hm
+        exact (List.mem_filter.mp hm).2
+    | snapshot =>
+      simp only [NoDupFails] at hn
+      exact ih _ hi hc hn
+
+theorem minerCount_eq_claims_init (P : Params) (hP : 0 < P.minPower) (ops : List Op)
+    (hn : NoDupFails ops) :
+    (run P init ops).minerCount = ((run P init ops).claims.length : Int) :=
+  minerCount_eq_claims P hP ops init (inv_init P) (by simp [CountExact, init]) hn
+
 /-! ### Non-vacuity: a concrete run with five miners crossing the minimum both ways -/
 
 def exP : Params := { minPower := 10 }
